@@ -648,3 +648,72 @@ impl V for EnSkip {
 }
 
 include!("big_enum.rs");
+
+// ---- feature-gated collections ----------------------------------------------------------------------
+
+use bitvec::{order::BitOrder, store::BitStore, vec::BitVec};
+use smallvec::{Array, SmallVec};
+
+impl<A: Array + 'static> V for SmallVec<A>
+where
+    A::Item: V,
+{
+    fn gen_v(r: &mut Rng, d: u32) -> Self {
+        // below, at and above the inline capacity
+        let n = match r.below(4) {
+            0 => 0,
+            1 => A::size(),
+            2 => A::size() + 1,
+            _ => crate::values::len(r, d),
+        };
+        (0..n).map(|_| <A::Item as V>::gen_v(r, d.saturating_sub(1))).collect()
+    }
+    fn same(&self, o: &Self) -> bool { self.len() == o.len() && self.iter().zip(o.iter()).all(|(a, b)| a.same(b)) }
+    fn near(&self, r: &mut Rng) -> Self { self.iter().map(V::dup).collect::<Vec<A::Item>>().near(r).into_iter().collect() }
+    fn dup(&self) -> Self { self.iter().map(V::dup).collect() }
+    fn name() -> String { format!("SmallVec<[{};{}]>", <A::Item as V>::name(), A::size()) }
+}
+
+impl<T: BitStore + 'static, O: BitOrder + 'static> V for BitVec<T, O> {
+    fn gen_v(r: &mut Rng, _d: u32) -> Self {
+        let n = match r.below(8) {
+            0 => 0,
+            1 => 1,
+            2 => 7,
+            3 => 8,
+            4 => 9,
+            5 => 64,
+            6 => 65,
+            _ => r.below(300) as usize,
+        };
+        let mut b = BitVec::new();
+        for _ in 0..n {
+            b.push(r.chance(1, 2));
+        }
+        b
+    }
+    fn same(&self, o: &Self) -> bool { self.len() == o.len() && self.iter().by_vals().zip(o.iter().by_vals()).all(|(a, b)| a == b) }
+    fn near(&self, _r: &mut Rng) -> Self {
+        let mut b = self.clone();
+        if b.pop().is_none() {
+            b.push(false);
+        }
+        b
+    }
+    fn dup(&self) -> Self { self.clone() }
+    fn name() -> String { format!("BitVec<{},{}>", std::any::type_name::<T>(), std::any::type_name::<O>().rsplit("::").next().unwrap_or("")) }
+}
+
+impl V for flexstr::SharedStr {
+    fn gen_v(r: &mut Rng, d: u32) -> Self { flexstr::SharedStr::from(String::gen_v(r, d).as_str()) }
+    fn same(&self, o: &Self) -> bool { self.as_str() == o.as_str() }
+    fn near(&self, r: &mut Rng) -> Self { flexstr::SharedStr::from(self.as_str().to_string().near(r).as_str()) }
+    fn dup(&self) -> Self { self.clone() }
+    fn name() -> String { "flexstr::SharedStr".into() }
+}
+impl Cat for flexstr::SharedStr {
+    fn split_last(&self) -> Option<(Self, Self)> {
+        self.as_str().to_string().split_last().map(|(a, b)| (flexstr::SharedStr::from(a.as_str()), flexstr::SharedStr::from(b.as_str())))
+    }
+    fn cat(&self, o: &Self) -> Self { flexstr::SharedStr::from(format!("{}{}", self.as_str(), o.as_str()).as_str()) }
+}
